@@ -336,10 +336,18 @@ func (svr *Server) Close() error {
 		svr.lntls.Close()
 	}
 
+	// Stop all services concurrently: the teardown of one connection may have to wait
+	// until another connection (on whose full outgoing buffer it is blocked) is closed too.
+	var wg sync.WaitGroup
 	for _, svc := range svr.svcs {
 		log.Tracef("Stopping service: %d", svc.id)
-		svc.stop()
+		wg.Add(1)
+		go func(svc *service) {
+			defer wg.Done()
+			svc.stop()
+		}(svc)
 	}
+	wg.Wait()
 
 	if svr.sessMgr != nil {
 		svr.sessMgr.Close()
